@@ -29,13 +29,18 @@ structure SymbolInfo where
   special144 : Bool          -- DataMatrixSymbolInfo144: block count / block data length overridden
   deriving DecidableEq, Repr, Inhabited
 
+/-- `getHorizontalDataRegions`: `switch this.dataRegions` -/
+def hRegionsOf (dataRegions : Nat) : Nat :=
+  if dataRegions = 1 then 1 else if dataRegions = 2 ∨ dataRegions = 4 then 2
+  else if dataRegions = 16 then 4 else if dataRegions = 36 then 6 else 0
+/-- `getVerticalDataRegions` -/
+def vRegionsOf (dataRegions : Nat) : Nat :=
+  if dataRegions = 1 ∨ dataRegions = 2 then 1 else if dataRegions = 4 then 2
+  else if dataRegions = 16 then 4 else if dataRegions = 36 then 6 else 0
+
 namespace SymbolInfo
-def horizontalDataRegions (s : SymbolInfo) : Nat :=
-  if s.dataRegions = 1 then 1 else if s.dataRegions = 2 ∨ s.dataRegions = 4 then 2
-  else if s.dataRegions = 16 then 4 else if s.dataRegions = 36 then 6 else 0
-def verticalDataRegions (s : SymbolInfo) : Nat :=
-  if s.dataRegions = 1 ∨ s.dataRegions = 2 then 1 else if s.dataRegions = 4 then 2
-  else if s.dataRegions = 16 then 4 else if s.dataRegions = 36 then 6 else 0
+def horizontalDataRegions (s : SymbolInfo) : Nat := hRegionsOf s.dataRegions
+def verticalDataRegions (s : SymbolInfo) : Nat := vRegionsOf s.dataRegions
 def symbolDataWidth (s : SymbolInfo) : Nat := s.horizontalDataRegions * s.matrixWidth
 def symbolDataHeight (s : SymbolInfo) : Nat := s.verticalDataRegions * s.matrixHeight
 def symbolWidth (s : SymbolInfo) : Nat := s.symbolDataWidth + s.horizontalDataRegions * 2
